@@ -9,6 +9,7 @@ mod c04;
 mod c05;
 mod c06;
 mod c10;
+mod c11;
 mod c12;
 mod c15;
 mod c16;
@@ -218,6 +219,7 @@ fn main() {
         "C05" => { c05::run(&mut ctx); true }
         "C06" => { c06::run(&mut ctx); true }
         "C10" => { c10::run(&mut ctx); true }
+        "C11" => { c11::run(&mut ctx); true }
         "C12" => { c12::run(&mut ctx); true }
         "C15" => { c15::run(&mut ctx); true }
         "C16" => { c16::run(&mut ctx); true }
